@@ -822,6 +822,30 @@ fn nesting_depth(iter: &Iter<'_>) -> usize {
     max
 }
 
+/// Whether the input has more tokens that can open a nested production
+/// (parentheses, operators, identifiers) than `MAX_NESTING`. For callers
+/// of `parse_expr` whose input is not bounded in length.
+pub(crate) fn nests_too_deeply(iter: &Iter<'_>) -> bool {
+    iter.clone()
+        .take_while(|token| !matches!(token, Token::Eof))
+        .filter(|token| {
+            !matches!(
+                token,
+                Token::Decimal(..)
+                    | Token::Hex(_)
+                    | Token::Oct(_)
+                    | Token::Bin(_)
+                    | Token::Quote(_)
+                    | Token::Comma
+                    | Token::RPar
+                    | Token::Newline
+                    | Token::Comment(_)
+            )
+        })
+        .nth(MAX_NESTING)
+        .is_some()
+}
+
 pub fn parse_query(iter: &mut Iter<'_>) -> Query {
     if nesting_depth(iter) > MAX_NESTING {
         return Query::Error(format!(
